@@ -367,6 +367,12 @@ impl<'a> Fields<'a> {
                                 .implements
                                 .get(&*introspection_type_name)
                                 .is_some_and(|interfaces| interfaces.contains(condition))
+                            || ctx
+                                .schema_env
+                                .registry
+                                .types
+                                .get(condition)
+                                .is_some_and(|ty| ty.is_possible_type(&introspection_type_name))
                     });
                     if applies_concrete_object {
                         root.collect_all_fields(&ctx.with_selection_set(selection_set), self)?;
